@@ -138,6 +138,8 @@ def _parse_argument_set(
         pending_comment_indent: int | None = None
         pending_comma_node: Node | None = None
         pending_comma_empty_line = False
+        # A comment behind an own-line comment on the same line stays behind it.
+        after_own_line_comment = False
 
         def flush_pending_comma(next_node: Node) -> None:
             """Carry trailing comma trivia so argument lists keep spacing."""
@@ -239,6 +241,7 @@ def _parse_argument_set(
                 comment = Comment.from_cst(child)
                 inline_to_prev = (
                     previous_child is not None
+                    and not after_own_line_comment
                     and point_row(child.start_point) == point_row(previous_child.end_point)
                     and argument_set
                 )
@@ -246,6 +249,7 @@ def _parse_argument_set(
                     comment.inline = True
                     argument_set[-1].after.append(comment)
                 else:
+                    after_own_line_comment = True
                     before.append(comment)
                     if pending_comment_indent is None:
                         pending_comment_indent = point_column(child.start_point)
@@ -254,6 +258,8 @@ def _parse_argument_set(
                 pass
             else:
                 raise ValueError(f"Unsupported child node: {child} {child.type}")
+            if child.type != "comment":
+                after_own_line_comment = False
             previous_child = child
 
         closing_brace = next(
@@ -393,7 +399,10 @@ def _collect_colon_trivia(
             continue
         if not (colon_node.end_byte <= child.start_byte < body_node.start_byte):
             continue
-        if point_row(child.start_point) == point_row(colon_node.end_point):
+        if inline_comment_node is None and point_row(child.start_point) == point_row(
+            colon_node.end_point
+        ):
+            # There is room for one comment on the colon's line.
             after_colon_comment = Comment.from_cst(child)
             inline_comment_node = child
         else:
@@ -407,7 +416,12 @@ def _collect_colon_trivia(
     first_node = between_comment_nodes[0] if between_comment_nodes else body_node
     leading_gap = gap_from_offsets(node, gap_start, first_node.start_byte)
     leading_newlines = leading_gap.count("\n")
-    if leading_newlines:
+    shares_colon_line = (
+        inline_comment_node is not None
+        and bool(between_comment_nodes)
+        and point_row(first_node.start_point) == point_row(inline_comment_node.end_point)
+    )
+    if leading_newlines or shares_colon_line:
         breaks_after_semicolon = 1
         if leading_newlines > 1:
             before_body_trivia.extend([empty_line] * (leading_newlines - 1))
